@@ -28,7 +28,7 @@ ASSUMPTIONS = [
     "a dependency exists where the AST says so (vk/astgraph.py); the implementation's own graph is a superset",
     "the interpreter's default recursion limit (1000) is kept",
 ]
-BUDGET = {"quick": {"examples": 2400}, "thorough": {"examples": 250000, "deadline_s": 1500}}
+BUDGET = {"quick": {"examples": 2400}, "thorough": {"examples": 250000, "deadline_s": 900}}
 
 CFG = gen.cfg(max_syms=12, p_set=22, p_wset=22, p_set_symval=50, set_symval_numeric=True, p_select=25, p_imply=22, p_range_sym=35, p_choice=14, p_menu=18, p_bare=8)
 EDGE_KINDS = (
